@@ -330,7 +330,11 @@ def shrink(p, work, target, tag, budget=24):
                 cur = q; changed = True
     return cur
 
+RELOC_KEY = "C08:build-failed:reloc-truncated-symbol-offset"
+
 def key_of(p, what):
+    if what.startswith("build failed") and "relocation truncated to fit" in what:
+        return RELOC_KEY      # one root cause (QBE folds str+huge constant into a pc-relative operand): keyed by cause, not by input
     cat = what.split(":")[0].split(" ")[0]
     return "C08:%s:%s" % (cat, hashlib.sha256(render(p).encode()).hexdigest()[:16])
 
